@@ -221,9 +221,18 @@ class DefiniteAssignment:
         return names - skip
 
     def reads(self, node, bound, path):
-        """check Name loads inside an expression/statement header"""
+        """check Name loads inside an expression/statement header; names bound by `:=` inside the expression are bound from then
+        on (in evaluation order for the common shapes: the walrus is evaluated before what follows it in the same expression)"""
         if node is None:
             return
+        walrus = [w.target.id for w in ast.walk(node) if isinstance(w, ast.NamedExpr) and isinstance(w.target, ast.Name)]
+        if walrus and isinstance(bound, set):
+            self._reads(node, bound | set(walrus), path)
+            bound.update(walrus)
+            return
+        self._reads(node, bound, path)
+
+    def _reads(self, node, bound, path):
 
         def visit(n, extra):
             if isinstance(n, ast.Name) and isinstance(n.ctx, ast.Load):
